@@ -364,9 +364,17 @@ func opsMain(args []string) int {
 		if err != nil {
 			panic(err)
 		}
-		if err := g.sequence(dir, nops); err != nil {
-			errs = append(errs, fmt.Sprintf("sequence %d: %v", s, err))
-		}
+		func() {
+			defer func() {
+				if p := recover(); p != nil {
+					// the real package (or the state dump reading its structures) blew up: a finding
+					errs = append(errs, fmt.Sprintf("sequence %d: panic after %d recorded steps: %v", s, len(g.cases), p))
+				}
+			}()
+			if err := g.sequence(dir, nops); err != nil {
+				errs = append(errs, fmt.Sprintf("sequence %d: %v", s, err))
+			}
+		}()
 		os.RemoveAll(dir)
 	}
 	const shard = 700
